@@ -108,6 +108,28 @@ func init() {
 			call.Accept, call.RespComp, call.CompressEnd = []string{"gzip"}, "auto", true
 			c.Attr("~error-compressed", "true")
 		}
+		// what real servers do with the head of an error response: declare the length of the
+		// (small) body, and label JSON with a charset parameter
+		declareCL := c.Choose("declare-content-length", 2) == 1
+		ctParam := c.Choose("content-type-parameter", 3)
+		if declareCL || ctParam > 0 {
+			c.Attr("~head", fmt.Sprintf("content-length-declared=%v content-type-parameter=%d", declareCL, ctParam))
+			prev := call.Mutate
+			call.Mutate = func(sr *wire.ServerResp, rep *world.Reply) {
+				if prev != nil {
+					prev(sr, rep)
+				}
+				if sr != nil || rep.Out == nil {
+					return
+				}
+				if declareCL {
+					rep.HasCL, rep.ContentLength = true, int64(len(rep.Out.Body))
+				}
+				if ct := rep.Out.Header.Get("Content-Type"); ctParam > 0 && ct == "application/json" {
+					rep.Out.Header.Set("Content-Type", ct+[]string{"", "; charset=utf-8", ";charset=UTF-8"}[ctParam])
+				}
+			}
+		}
 		if tp == vanguard.ProtocolGRPCWeb {
 			// the status travels in a trailer frame (not in the head) in one of the legal spellings of a header line
 			if sp := c.Choose("trailer-frame-spelling", 5); sp > 0 {
